@@ -852,3 +852,79 @@ def check_c07(chk, tier):
 def check_c08(chk, tier):
     _patterns_check(chk, tier, "C08")
     chk.rule = _PAT_RULE + "C08: 4 mutability detectors; the 15 kinds of write in every position of every kind of function, immutable and calldata matrices."
+
+
+# ---------------------------------------------------------------------------
+# C04 (totality)
+# ---------------------------------------------------------------------------
+
+@prop("C04")
+def check_c04(chk, tier):
+    hb_dev = vlib.build_harness("dev")
+    hb_rel = vlib.build_harness("release")
+    d = wdir("C04")
+    suffix = "quick" if tier == "quick" else "thorough"
+    bfiles = []
+    specs = [("MC_Totality", "MC_Totality.%s.cfg" % suffix, "totality"), ("MC_Walk", "MC_Walk.quick.cfg", "walk")]
+    for pid in ("C05", "C06", "C07", "C08"):
+        specs.append(("MC_Patterns", "MC_Patterns.%s.%s.cfg" % (pid, "quick"), "pat" + pid))
+    for module, cfg, tag in specs:
+        r = vlib.tlc(module, cfg, workers=8, timeout=3400, xmx="12g", tag="C04")
+        chk.add_tlc(r)
+        beh = r.records.get("REPLAY", [])
+        if not beh:
+            raise ToolError("%s/%s generated nothing" % (module, cfg))
+        if tier == "quick" and tag.startswith("pat") and len(beh) > 700:
+            step = len(beh) // 700 + 1
+            beh = beh[vlib.seed() % step::step]
+        os.makedirs(os.path.join(d, tag), exist_ok=True)
+        path = os.path.join(d, tag, "behaviours.ndjson")
+        vlib.write_ndjson(path, beh)
+        bfiles.append(path)
+    corpus = prepare_corpus()
+    traces = {}
+    for build, hb in (("dev", hb_dev), ("release", hb_rel)):
+        tpath = os.path.join(d, "trace-%s.ndjson" % build)
+        res = vlib.harness(hb, ["total-run", build, corpus, tpath] + bfiles, timeout=3400)
+        chk.add_harness(res, count_traces=False)
+        traces[build] = vlib.read_ndjson(tpath)
+    # the two builds must agree wherever both returned a set
+    recs = traces["dev"] + traces["release"]
+    for a, b in zip(traces["dev"], traces["release"]):
+        diff = [k for k in a["results"] if k in b["results"] and a["results"][k] != b["results"][k]]
+        recs.append({"k": "cmp", "src": a["src"], "same": not diff, "detector": diff[0] if diff else "",
+                     "dev": {k: a["results"][k] for k in diff}, "release": {k: b["results"][k] for k in diff}})
+    for x in recs:
+        x.pop("results", None)
+    tpath = os.path.join(d, "trace.ndjson")
+    vlib.write_ndjson(tpath, recs)
+
+    def describe(rec, why):
+        if rec["k"] == "cmp":
+            return ("totality:%s" % why, "the builds with and without overflow checks disagree on %s: %s vs %s" % (rec["src"], rec["dev"], rec["release"]))
+        family = rec["src"].split(":")[1] if ":" in rec["src"] else "corpus"
+        allbad = ", ".join("%s (%s)" % (b["d"], b["why"]) for b in rec["bad"])
+        return ("totality:%s" % why, "in the %s build on %s (%s): %s" % (rec["build"], rec["src"], family, allbad),
+                {"source": rec.get("text", ""), "all_failures": rec["bad"]})
+    # one violation per (detector, reason): expand records with several failing detectors
+    expanded = []
+    for x in recs:
+        if x["k"] == "total" and len(x["bad"]) > 1:
+            for b in x["bad"]:
+                y = dict(x)
+                y["bad"] = [b]
+                expanded.append(y)
+        else:
+            expanded.append(x)
+    vlib.write_ndjson(tpath, expanded)
+    trace_validate(chk, "TV_Totality", tpath, describe, timeout=3400)
+    for v in chk.violations:
+        v["replay"].pop("trace_record", None)
+    chk.exhaustive = True
+    chk.rule = ("TLC generates the product of input classes that reach the fallible sites (pragma classes x item kinds alone / "
+                "without pragma / combined x numeric literals of every size and spelling in operator slots x call arities of the "
+                "special callees x 0..300 functions before a constructor x odd declarations), plus the trees of C01 and the "
+                "pattern families of C05-C08; every file and every corpus program goes through all 30 detectors under "
+                "catch_unwind and a 30 s watchdog in a build with overflow checks and a build without; TV_Totality accepts a run iff "
+                "every detector returned a set, and the two builds agree. Non-trivial = files longer than 200 bytes.")
+    chk.assumptions = ["stack exhaustion beyond nesting depth 64 is outside the property"]
